@@ -8,7 +8,8 @@ PROP = {
     "properties_file": "Properties/C12.v",
     "theorems": ["C12_replace_converges_export", "C12_replace_converges", "C12_replace_converges_import",
                  "C12_never_skipped", "C12_never_skipped_contrapositive", "C12_family_export_converges",
-                 "C12_family_import_converges", "C12_never_skipped_family"],
+                 "C12_family_import_converges", "C12_family_replace_stores", "C12_family_init_converges",
+                 "C12_family_down_replace_then_init", "C12_never_skipped_family"],
     "allowed_axioms": [],
     "harness": "c12",
     "modelrun": {"name": "c12", "extracted": ["aro_model"], "driver": aro_props.driver("c12")},
